@@ -1,12 +1,37 @@
 /-
   Property C11 — source ranges of values and error ranges are exact and inside the input.
-  Theorem part proved so far: the line/column half (line-feed index, binary search,
-  position arithmetic) for every input and every offset.
+  Proved for every input: the value-range half (every range of the returned tree lies inside the
+  input and is non-empty, a parent encloses its children, siblings - map keys and values in
+  reading order - do not overlap and appear in source order, metadata lies inside its target;
+  values the reader synthesises, i.e. rewritten namespaced-map keys and merged metadata maps,
+  carry no range), the error-range half (0 <= start <= end <= length) and the line/column half
+  (line-feed index, binary search, position arithmetic).
 -/
 import Edn.Proofs.Lines
+import Edn.Proofs.Ranges
 
 namespace Edn.Properties.C11
-open Edn.Model Edn.Proofs
+open Edn.Model Edn.Proofs Edn.Spec
+
+/-- every tree `edn_read` returns (no handler registry: handlers return arbitrary values)
+    satisfies the range conditions hereditarily, and its own range lies inside the input
+    (remaining-length coordinates: `hdr.s` bytes were left at its start, `hdr.e` at its end) -/
+theorem value_ranges (cfg : Cfg) (opts : Opts) (hreg : opts.registry = none) (input : Bytes) (v : Val)
+    (h : (read cfg opts input).out = .value v) :
+    RangeOK v ∧ v.hdr.s ≤ input.length ∧ v.hdr.e < v.hdr.s :=
+  read_value_ranges cfg opts hreg input v h
+
+/-- the same at every nesting level: a value spans exactly the bytes consumed for it -/
+theorem value_spans_bytes_read (ctx : Ctx) (hreg : ctx.opts.registry = none) (f d : Nat) (dm : Bool) (st st' : St) (v : Val)
+    (h : readValue ctx f d dm st = .ok v st') : RangeOK v ∧ SpanOf st v st' :=
+  readValue_ranges ctx hreg f d dm st st' v h
+
+/-- every error range satisfies 0 <= start <= end <= length (absolute offsets), with or
+    without a registry -/
+theorem error_ranges (cfg : Cfg) (opts : Opts) (input : Bytes) (code : Err) (es ee : Pos)
+    (h : (read cfg opts input).out = .error code es ee) :
+    es.offset ≤ ee.offset ∧ ee.offset ≤ input.length :=
+  read_error_ranges cfg opts input code es ee h
 
 /-- the index built by `newline_find_all` lists exactly the offsets of the line feeds … -/
 theorem index_complete (s : Bytes) (p : Nat) : p ∈ lfPositions s ↔ s[p]? = some 0x0A := by
